@@ -13,6 +13,9 @@ Decided (A10 finite-case evaluation over orderings of opaque values, A1 who-call
  * impact-sign      : same-side: next < initial -> +delta with the positive factor, otherwise -delta (checked_neg) with
                       the negative factor  => a worsening same-side change never gets a positive impact and an improving
                       one never a negative impact; cross-over: +delta iff positive_impact > negative_impact, else -delta.
+                      The sign-selecting branch may live in the formula itself or in a private helper of pool::delta that
+                      the formula tail-calls: the helper's decision table is substituted (parameters := argument
+                      expressions), so the fact is established through the helper too.
  * worse-of         : `swap_impact_value` / `position_price_impact` over orderings of (virtual, real) x {real negative,
                       include flag, virtual inventory present}: the virtual inventory is consulted only when the real
                       impact is negative and enabled, and then the smaller of the two impacts is returned.
